@@ -60,12 +60,20 @@ import (
 	"verif/internal/watchdog"
 )
 
-type Scenario struct{}
+// Scenario: Race selects the variant executed by the -race worker. Saving and
+// loading are sequential calls; should the library ever do them on several
+// goroutines internally, the race detector judges that synchronisation.
+type Scenario struct{ Race bool }
 
-func (Scenario) Prop() string    { return "C12" }
-func (Scenario) Name() string    { return "edit-save-restart" }
-func (Scenario) Isolated() bool  { return false }
-func (Scenario) NeedsRace() bool { return false }
+func (Scenario) Prop() string { return "C12" }
+func (s Scenario) Name() string {
+	if s.Race {
+		return "edit-save-restart-race"
+	}
+	return "edit-save-restart"
+}
+func (Scenario) Isolated() bool    { return false }
+func (s Scenario) NeedsRace() bool { return s.Race }
 
 // ------------------------------------------------------------ harness node types
 // Deterministic, order-sensitive artifact producers with array inputs.
@@ -584,6 +592,7 @@ func (Scenario) Run(c choice.Chooser, opt sim.Options) (res sim.Result) {
 	producerSerial := 0
 	wiringEdits, restartsAfterWiring := 0, 0
 	maxArr := 0
+	keepSession := false // autosave: check the saved file, go on with the live application
 	restart := func() *sim.Result {
 		res.Evals++
 		var saved []byte
@@ -682,6 +691,13 @@ func (Scenario) Run(c choice.Chooser, opt sim.Options) (res sim.Result) {
 		if wiringEdits > 0 {
 			restartsAfterWiring++
 		}
+		if keepSession {
+			// the edit server saves after every edit and carries on: what
+			// the save path remembers between two saves must not go stale
+			hist = append(hist, "(autosave: the session continues on the live application)")
+			res.Count("probe:autosave-session-continues", 1)
+			return nil
+		}
 		w = a
 		return nil
 	}
@@ -694,7 +710,7 @@ func (Scenario) Run(c choice.Chooser, opt sim.Options) (res sim.Result) {
 	for step := 0; step < nOps; step++ {
 		res.Steps++
 		ids := w.nodeIDs()
-		kind := choice.Pick(c, "op:kind", []int{8, 12, 4, 5, 2, 2, 3, 1, 2})
+		kind := choice.Pick(c, "op:kind", []int{8, 12, 4, 5, 2, 2, 3, 1, 2, 2})
 		if len(ids) == 0 {
 			kind = 0
 		}
@@ -912,6 +928,13 @@ func (Scenario) Run(c choice.Chooser, opt sim.Options) (res sim.Result) {
 			p := try(func() { w.inst.DeleteNode(id) })
 			hist = append(hist, fmt.Sprintf("delete %s %s", id, p))
 			res.Count("op:delete-node", 1)
+		case 9: // autosave: save, check the file against the live graph, continue in the same session
+			keepSession = true
+			r := restart()
+			keepSession = false
+			if r != nil {
+				return *r
+			}
 		default: // save + restart
 			if r := restart(); r != nil {
 				return *r
